@@ -11,6 +11,12 @@ CLAIMED = {
     "C02": dict(text="real calcMetric/geometry2/calcBeta/geometry1 run on symbolic reals; z3 (after exact rational-function normalisation) shows every metric identity, the closed forms, the displacement scalar products and the sign logic for all real inputs of the stated domain",
                 note="reals not IEEE doubles; DDX/calc_curvature/calcHy stubbed; hy, beta, Bp taken as given; 1x1 region (element-wise formulas); locally linear psi for the displacement obligations",
                 tech=TECH + "; QF_NRA"),
+    "C06": dict(text="real calcZShift on open and periodic region chains with quadrature/interpolation contract stubs and the real integrand closure; real DDX (with dx from the real geometry1) on a radial stack in all connection cases; real geometry2/calcMetric wiring; z3 decides zero at chain start, continuity across joins, ShiftAngle, integrand = Bt/(R|Bp|), DDX stencils and finiteness",
+                note="cumulative_trapezoid and interp1d replaced by contracts (T[0]=0, exact at nodes); 2-region chains, nx<=2, ny=1; trapezoid accuracy and 2*pi*q not decided",
+                tech=TECH),
+    "C07": dict(text="real calc_curvature on a stub region over the real field helper chain; reference curl(b/B) from forward-mode AD of the real Bp_R, Bp_Z, Bzeta, B2; z3/normal form decide the three contravariant components and bxcv for all values of psi's derivatives, fpol, fpol', R, hy, tanBeta, both signs of Bp",
+                note="RectBivariateSpline contract (table of derivatives); Bp^2=|grad psi|^2/R^2, Bt=fpol/R assumed at the point; x-y-derivative formulation and smoothing not decided",
+                tech=TECH + "; forward-mode AD (jets), exact rational-function normal form"),
     "C08": dict(text="real topology descriptors, Mesh/BoutMesh index code and the AST slice of writeGridfile run with symbolic integer sizes; z3 (LIA) decides tiling, connection symmetry, BOUT++ decoding of ixseps/jyseps == hypnotoad adjacency and index ordering for all sizes >= 1",
                 note="numerics (findLegs, coreRegionToRegion, segmentsWithPsivals) stubbed; BOUT++ reference semantics written in the harness; guards enumerated 0..4; coordinates on shared edges not decided",
                 tech=TECH + "; QF_LIA over unbounded sizes"),
@@ -26,6 +32,9 @@ CLAIMED = {
     "C17": dict(text="reader pattern and writer formats read from the source and decided as z3 regular-expression/string queries; real write/read executed on symbolic payloads for layout/order; header widths decided in LIA (model validated against the real code each run)",
                 note="C printf %E language model; injective token pair for f2s/float; bounded sizes for layout; 2-digit exponents",
                 tech=TECH + "; z3 sequences/regex, LIA"),
+    "C18": dict(text="real spline-branch closures, real helper chain, real DCT_2D derivative methods compared with forward-mode AD of the real value functions; div B = 0; dispatch of multi-location arguments",
+                note="interpolant contract (returns partial derivatives of one function); point inside the box; DCT 2x2/3x2 coefficients; node reproduction and inter-method agreement not decided",
+                tech=TECH + "; forward-mode AD (jets), exact rational-function normal form"),
     "C20": dict(text="real find_intersections/closest_approach/polygons.* run on symbolic real coordinates; every path of the slope-class/sort/range logic explored; z3 (QF_NRA) compares with the exact parametric solution",
                 note="reals not doubles; coordinates in [-8,8]; 1 wall edge x 1 segment (edges are processed element-wise); polygons <= 5 vertices; completeness away from near-parallel configurations",
                 tech=TECH + "; QF_NRA with lazy quotient abstraction"),
